@@ -264,6 +264,12 @@ def base_text(name):
         mols = [lone_atom(), load("dummy.mol2"), third]
     elif name in ("gen_confs3.mol2", "gen_confs3.xyz"):
         mols = ml.Molecule.load_all_mol2(FILES / "pentane_confs.mol2")[:3]
+    elif name == "gen_confs3_named.mol2":
+        # the same constitution and counts in every block, but every block under a name of its own: a
+        # block that ends up with the header of its neighbour is then not a molecule of the file
+        mols = ml.Molecule.load_all_mol2(FILES / "pentane_confs.mol2")[:3]
+        for k, m in enumerate(mols):
+            m.name = f"conformer_{k + 1}"
     elif name == "gen_unity.mol2":
         # count-driven attribute records molli DOES implement: UNITY_ATOM_ATTR between ATOM and BOND
         # (formal charges and a free attribute), UNITY_BOND_ATTR after BOND, then a second molecule
@@ -312,6 +318,7 @@ QUICK_BASES = [
     "gen_record_single.mol2",
     "gen_record_multi.mol2",
     "gen_confs3.mol2",
+    "gen_confs3_named.mol2",
     "file:dendrobine.xyz",
     "file:dendrobine.mol2",
     "file:pentane_confs.xyz",
@@ -753,11 +760,30 @@ def run(ctx):
     fl = list(T.enumerate_faults(b0.doc, *fills(ctx)))
     for f in (fl[0], fl[len(fl) // 5], fl[2 * len(fl) // 5], fl[3 * len(fl) // 5], fl[4 * len(fl) // 5], fl[-1]):
         ctx.sample({"base": b0.name, "fault": f, "damaged_text": T.doc_text(T.apply_fault(b0.doc, f))})
-    ctx.pmap(_dispatch, parts)
+    # interpreter configuration: a compact subset once more under python -O and python -OO (started now,
+    # collected after the main enumeration)
+    from mc.props import c10_child
+
+    ctx.bound["interpreter_configurations"] = {"flags": ["-O", "-OO"], "base_texts": c10_child.CONFIG_BASES, "faults": "record type indicator faults, line deletions, count / id / first atom and bond line token faults"}
+    kids = [(flag, c10_child.spawn(flag, {"bases": c10_child.CONFIG_BASES, "seed": ctx.seed})) for flag in ("-O", "-OO")]
+    try:
+        ctx.pmap(_dispatch, parts)
+        for flag, p in kids:
+            c10_child.collect(ctx, flag, p)
+    finally:
+        for _, p in kids:
+            if p.poll() is None:
+                p.kill()
 
 
 def replay(ctx, case):
     install_guards()
+    if case.get("config"):
+        from mc.props import c10_child
+
+        job = {"cases": [{"base": case["base"], "faults": case["faults"]}], "seed": ctx.seed}
+        c10_child.collect(ctx, case["config"], c10_child.spawn(case["config"], job))
+        return
     if case.get("layer") == "single":
         base = Base(case["base"])
         doc = T.apply_fault(base.doc, case["faults"][0])
